@@ -71,6 +71,12 @@ def genOps2 : List (String × R String) := [
   ("g:hrp_expand", do let h ← chars; pure (ansG ints (Gen.bech32_hrp_expand h))),
   ("g:verify_checksum", do let h ← chars; let d ← listOf int; pure (ansG (optS toString) (Gen.bech32_verify_checksum h d))),
   ("g:create_checksum", do let h ← chars; let d ← listOf int; let sp ← int; pure (ansG ints (Gen.bech32_create_checksum h d sp))),
+  ("g:tr_root", do let t ← tree; pure (ansG hex (Gen.tag_hashed_merkle_root Crypto.sha256 Gen.OP_CODES (some (pyTree t))))),
+  ("g:tr_cb", do
+      let pub ← bytes; let t ← tree; let k ← nat; let odd ← bool
+      pure (ansG hex (do
+        let path ← Gen.generate_merkle_path Crypto.sha256 Gen.OP_CODES (some (pyTree t)) (k : Int)
+        Gen.control_block_to_bytes odd (pub.take 32) path))),
   ("g:tr_sign", do
       let priv ← bytes; let pub ← bytes; let s ← scripts; let digest ← bytes; let ht ← nat; let tw ← bool
       pure (ansG hex (Gen.sign_taproot_input Crypto.sha256 Gen.OP_CODES priv pub digest (ht : Int) (pyScripts s) tw))),
